@@ -102,6 +102,7 @@ type Options struct {
 	MaxSteps    int    // step horizon
 	TimeHorizon int64  // virtual ns after which the clock is not advanced any more
 	Trace       bool   // record the operation trace with source positions
+	Jitter      bool   // enumerate math/rand.Float64 answers (back-off jitter)
 }
 
 // ThreadAlt describes one alternative of a scheduling decision.
